@@ -276,6 +276,9 @@ words = st.one_of(st.sampled_from(["solo", "soloend", "ENABLE_CHART_DYNAMICS", "
                            max_size=3).map("".join))
 
 
+# blank padding longer than any plausible line buffer / length guard (2^16 and beyond): a line is a line
+HUGE_PADS = [" " * 70000, "\t" * 66000, " \t" * 40000]
+
 # tick offsets around the widths of machine integers and of the float mantissa: nothing in the format
 # bounds a tick, so a section's meaning must survive being moved up by any of them
 BIG_OFFSETS_32 = [2 ** 31 - 40, 2 ** 32 - 40, 2 ** 32, 2 ** 33 + 7]
@@ -354,7 +357,12 @@ KNOWN_GLOBAL_EVENTS = ["end", "music_start", "music_end", "coda", "idle", "play"
                        "sync_head_bang", "sync_wag", "lighting (chase)", "lighting (strobe)", "lighting ()", "verse",
                        "chorus", "solo", "soloend", "preview", "Default", "ENABLE_CHART_DYNAMICS", "section end",
                        "section prc_intro", "section [prc_verse_1]", "lyric +", "lyric #", "lyric ^", "lyric -",
-                       "lyric to-", "lyric =geth=", "lyric er$", "lyric §", "phrase_start", "phrase_end"]
+                       "lyric to-", "lyric =geth=", "lyric er$", "lyric §", "phrase_start", "phrase_end",
+                       # keywords of neighbouring dialects at the START of a text (Rock Band practice sections,
+                       # other spellings of the two prefixes): plain texts to this library
+                       "prc_intro", "prc_", "[prc_verse_1]", "sectionIntro", "section_intro", "Section Intro", "SECTION x",
+                       "sec Intro", "lyrics hi", "lyric_hi", "Lyric hi", "LYRIC hi", "lyr hi", "text x", "event x",
+                       "phrase_start 1", "section", "lyric", "section\tx", "lyric\tx"]
 KNOWN_TRACK_WORDS = ["solo", "soloend", "ENABLE_CHART_DYNAMICS", "ENHANCED_OPENS", "[ENHANCED_OPENS]", "*", "T", "O", "H",
                      "P", "N", "S", "E", "5", "6", "7", "end", "forced", "tap", "open", "idle", "play", "ow_face_on",
                      "ow_face_off", "mix_3_drums0d", "map", "HandMap_Default", "sp", "starpower", "ghl", "disco"]
@@ -415,9 +423,10 @@ def chart_specs(draw, max_segments: int = 8, max_tracks: int = 2, max_notes: int
     tick_st = tick_strategy(tm, max_tick)
     # sync section
     ts_ticks = sorted(draw(st.sets(tick_st.filter(lambda t: t > 0), max_size=max_ts)))
-    sync = [[0, "TS", draw(st.integers(1, 16)), draw(st.one_of(st.none(), st.integers(0, 6)))]]
+    ts_exp = st.one_of(st.none(), st.integers(0, 6), st.integers(0, 6), st.sampled_from([7, 8, 10, 16]))
+    sync = [[0, "TS", draw(st.integers(1, 16)), draw(ts_exp)]]
     for t in ts_ticks:
-        sync.append([t, "TS", draw(st.integers(1, 16)), draw(st.one_of(st.none(), st.integers(0, 6)))])
+        sync.append([t, "TS", draw(st.one_of(st.integers(1, 16), st.sampled_from([0, 17, 32, 255]))), draw(ts_exp)])
     for t, n in tmap["tempo"]:
         sync.append([t, "B", n])
     for t in sorted(draw(st.sets(st.one_of(tick_st, st.sampled_from(tm.ticks)), max_size=max_anchors))):
